@@ -339,9 +339,11 @@ def run_check(pid: str, tier: str, master: int, jobs: int, runs: int | None,
     nontriv = {r["history_key"] + "|" + ",".join(r.get("features", [])) for r in ok_results if r.get("nontrivial")}
     probes: Counter = Counter()
     faults: Counter = Counter()
+    abort_reasons: Counter = Counter()
     for r in ok_results:
         probes.update(r.get("probes", {}))
         faults.update(r.get("faults", {}))
+        abort_reasons.update(r.get("notes", []))
     wall = time.time() - t0
     n_eval = len(ok_results)
     samples = []
@@ -365,6 +367,7 @@ def run_check(pid: str, tier: str, master: int, jobs: int, runs: int | None,
             "fault_counts": dict(sorted(faults.items())),
             "probes": dict(sorted(probes.items())),
             "aborted_foreign": sum(r.get("aborted_foreign", 0) for r in ok_results),
+            "exceptions_of_code_under_test": dict(abort_reasons.most_common(12)),
             "premise_left": sum(r.get("premise_left", 0) for r in ok_results),
             "cut_short_by_budget": cut_short,
             "violation_tags": {t: len(rs) for t, rs in sorted(by_tag.items())},
